@@ -106,6 +106,27 @@ theorem equals_fresh_model {D : Data} (hI : InitConsistent D) (hK : KeysDistinct
   have hs := hfresh.sameVals hc hfl.symm
   exact ⟨hfl, fun v p => ⟨hs.total_eq v, hs.unitVal_eq v p⟩⟩
 
+/-! ### why float error cannot accumulate along a history (the per-step argument)
+
+The theorems above are exact in ℚ.  The Go code computes every stored figure as `RoundFloat(x, p)` of a float
+expression `x` (`SetPlanningUnitValue`: unit := round(new), total := round(total + (new − old))).  Let the *exact*
+value of that expression be the grid value `g` (by the theorems) and the float evaluation be `g + e`.  As long as
+`|e| < ½·10⁻ᵖ` the stored figure is again (the float nearest to) `g`: the error of one step is wiped out by that
+step's own re-rounding and is never carried into the next one.  One addition and one subtraction of binary64 numbers
+of magnitude `M` err by at most `2·2⁻⁵³·M`, so `|e| < ½·10⁻ᵖ` holds while `M·10ᵖ < 2⁵⁰` — totals below 10¹² t / 10¹³ $.
+`reround_absorbs_error` is the exact-arithmetic half of that argument (the bound on `e` is IEEE-754's, outside the
+model, DESIGN 3.1); the long walks of the thorough tier (200 000 operations, every figure compared with the fresh
+model bit for bit) sample the whole. -/
+
+/-- re-rounding to the reporting grid absorbs any evaluation error below half a grid unit: the stored total after
+a step is the exact grid value `total + (new − old)`, whatever error `e` (|e|·10ᵖ < ½) the evaluation carried -/
+theorem reround_absorbs_error {p : Nat} {tot new old e : Rat}
+    (ht : OnGrid p tot) (hn : OnGrid p new) (ho : OnGrid p old)
+    (h1 : -(1/2) < e * (10^p : Nat)) (h2 : e * (10^p : Nat) < 1/2) :
+    (setPUValue p old tot (new + e)).1 = new ∧
+    rnd p (tot + (new - old) + e) = tot + (new - old) :=
+  ⟨rnd_absorbs hn h1 h2, rnd_absorbs (ht.add (hn.sub ho)) h1 h2⟩
+
 /-! ### Non-vacuity and sanity examples (tests, labelled as such)
 
 A concrete dataset: two planning units, three actions (gully and riparian in unit 1, hill-slope in
@@ -150,6 +171,9 @@ example :
       exS.ic.cells = exF.ic.cells ∧ exS.ic.total = exF.ic.total ∧
       exS.oc.cells = exF.oc.cells ∧ exS.oc.total = exF.oc.total := by
   decide +kernel
+
+/-- `reround_absorbs_error` on numbers: 12.345 + 0.0004 re-rounds to 12.345 (and 0.0005 would not: half a unit) -/
+example : rnd 3 (12345/1000 + 4/10000) = 12345/1000 ∧ rnd 3 (12345/1000 + 5/10000) ≠ 12345/1000 := by decide +kernel
 
 /-- values do move: the example is not trivially constant -/
 example : total (run exData [.acceptToggle 0]) .sed ≠ total (run exData []) .sed := by decide +kernel
